@@ -40,7 +40,7 @@ func init() {
 		CaseTimeout: 120 * time.Second,
 		Run:         runC07,
 		Floors: func(tier string) map[string]int {
-			return map[string]int{"ops_judged": 1500, "refused_readonly": 300, "demotions_mid_tx": 10, "write_refused_after_loss": 5, "demotion_then_commit_refused": 8, "import_waiting_at_demotion": 6, "import_refused": 10,
+			return map[string]int{"ops_judged": 1500, "refused_readonly": 300, "demotions_mid_tx": 10, "write_refused_after_loss": 5, "demotion_then_commit_refused": 8, "import_waiting_at_demotion": 4, "import_raced_by_demotion": 4, "import_refused": 10,
 				"state_connected": 5, "state_disconnected": 5, "state_never-connected": 5, "state_former-halt-holder": 5, "op_dbwrite": 50, "op_journal-create": 50, "op_wal-write": 30, "op_db-unlink": 30, "op_journal-unlink": 10}
 		},
 	})
@@ -595,6 +595,54 @@ func c07C(c *core.Case) {
 		err    error
 	}
 	resCh := make(chan impRes, 1)
+	if (c.Index/60)%2 == 1 {
+		// Steered variant without a writer: the lease is lost after the import has
+		// checked that the node is primary and before its write lock is complete
+		// (the gate is the first lock the import's internal writer takes). The
+		// import then holds the lock on a node without authority: it must not publish.
+		pdb := P.Store.DB("db")
+		var armed, fired atomic.Bool
+		pdb.VerifOnLockStateChange(func(lt litefs.LockType, prev, next litefs.RWMutexState) {
+			if !armed.Load() || next == litefs.RWMutexStateUnlocked || fired.Swap(true) {
+				return
+			}
+			blocked.Store(true)
+			P.Store.Demote()
+			for dl := time.Now().Add(10 * time.Second); P.Store.IsPrimary() && time.Now().Before(dl); {
+				time.Sleep(time.Millisecond)
+			}
+		})
+		w.close()
+		armed.Store(true)
+		resp, err := http.Post(P.URL()+"/import?name=db", "application/octet-stream", bytes.NewReader(other.Bytes()))
+		armed.Store(false)
+		pdb.VerifOnLockStateChange(nil)
+		r := impRes{0, err}
+		if err == nil {
+			_, _ = io.Copy(io.Discard, resp.Body)
+			resp.Body.Close()
+			r.status = resp.StatusCode
+		}
+		if !fired.Load() {
+			c.Inconclusive("the import took no lock")
+			return
+		}
+		if P.Store.IsPrimary() {
+			c.Inconclusive("node did not lose primary status")
+			return
+		}
+		c.Count("ops_judged", 1)
+		c.Count("import_raced_by_demotion", 1)
+		after := c07StableSnapshot(P.Node, "db")
+		detail := map[string]any{"wal": wal, "import_status": r.status, "import_err": fmt.Sprint(r.err), "before": fmt.Sprint(before), "after": fmt.Sprint(after)}
+		if r.err == nil && r.status == 200 || after.pos != before.pos || after.ltx != before.ltx {
+			c.Violate("C07/import-published-after-authority-loss", fmt.Sprintf("the node lost its lease after POST /import had checked that it is primary and before its write lock was complete; the import was answered %d and position/log went %s %s -> %s %s", r.status, before.pos, before.ltx, after.pos, after.ltx), detail)
+			return
+		}
+		c.Count("import_refused_after_loss", 1)
+		c.Distinct(fmt.Sprintf("C/raced/wal%v/status%d", wal, r.status))
+		return
+	}
 	holdStep := "journal header"
 	if wal {
 		holdStep = "wal frame 0"
